@@ -36,7 +36,16 @@ fn setup_env(args: &Args, tag: &str) -> Env {
         std::fs::write(&p, t).unwrap();
         disk.insert(p.display().to_string(), t.to_string());
     };
-    put(proj.join("gleam.toml"), "name = \"proj\"\n");
+    if tag == "c15" {
+        // the hostile-sequence project has a path dependency that depends back on it: a cycle of path dependencies is
+        // a mistake in the project, whatever is opened or edited the server has to live with it
+        std::fs::create_dir_all(root.join("cyc/src")).unwrap();
+        std::fs::write(root.join("cyc/gleam.toml"), "name = \"cyc\"\nversion = \"1.0.0\"\n\n[dependencies]\nproj = { path = \"../proj\" }\ncyc = { path = \".\" }\n").unwrap();
+        std::fs::write(root.join("cyc/src/cyc.gleam"), "pub fn cyc() { 1 }\n").unwrap();
+        put(proj.join("gleam.toml"), "name = \"proj\"\n\n[dependencies]\ncyc = { path = \"../cyc\" }\n");
+    } else {
+        put(proj.join("gleam.toml"), "name = \"proj\"\n");
+    }
     put(proj.join("src/a.gleam"), A_SRC);
     put(proj.join("src/b.gleam"), B_SRC);
     put(root.join("loose/free.gleam"), "fn free() { 1 }\n");
@@ -994,6 +1003,27 @@ fn run_c13bb(args: &Args) -> Report {
                 }
             }
         }
+        // The last word of one history in four is a full replacement whose text has carriage returns that are not
+        // part of a CRLF (a bare CR, CR CR LF): "the editor's text with carriage returns removed" holds for those
+        // too. Nothing is edited afterwards (what a bare CR means for later positions is outside this property).
+        if ok && r.chance(1, 4) {
+            let fin = *r.pick(&["a\rb", "x\r\r\ny", "\rfn f() { 1 }\r", "ß\r💣\r\nz\r"]);
+            log.push(json!({"didChange": [{"text": fin}]}));
+            version += 1;
+            s.notify("textDocument/didChange", json!({"textDocument":{"uri":uri,"version":version},"contentChanges":[{"text":fin}]}));
+            let id = s.request("glas/syntaxTree", json!({"textDocument":{"uri":uri}}));
+            rep.evaluations += 1;
+            if let Some(resp) = s.wait_response(id, Duration::from_secs(20)) {
+                s.forget();
+                let want = fin.replace('\r', "");
+                if let Some(dump) = resp.get("result").and_then(|r| r.as_str()) {
+                    rep.count("bb_final_replacements_with_a_bare_cr_checked", 1);
+                    if let Err(e) = synmon::dump_matches_text(dump, &want) {
+                        rep.violate("bb-doc-desync:full-replacement-with-a-bare-carriage-return", format!("{e}; editor text without CR: {want:?}"), json!({"kind":"c13-history","history":log}));
+                    }
+                }
+            }
+        }
         if ok && client.text.chars().any(|c| c.len_utf8() > 1 || c == '\r') {
             rep.nontrivial(fnv(format!("{log:?}").as_bytes()));
         }
@@ -1390,6 +1420,14 @@ fn run_c16(args: &Args) -> Report {
         if open_late {
             version += 1;
             bytes.extend(vh::lspclient::frame(&json!({"jsonrpc":"2.0","method":"textDocument/didOpen","params":{"textDocument":{"uri":uris[1],"languageId":"gleam","version":version,"text":texts[0][1].text}}})));
+            // half of these sessions also close the first document and open it again with the text it has:
+            // it is an open document at the end, and what the editor shows for it must be the diagnostics of that text
+            if cr.chance(1, 2) {
+                rep.count("races_ending_with_close_and_reopen", 1);
+                bytes.extend(vh::lspclient::frame(&json!({"jsonrpc":"2.0","method":"textDocument/didClose","params":{"textDocument":{"uri":uris[0]}}})));
+                version += 1;
+                bytes.extend(vh::lspclient::frame(&json!({"jsonrpc":"2.0","method":"textDocument/didOpen","params":{"textDocument":{"uri":uris[0],"languageId":"gleam","version":version,"text":texts[k][0].text}}})));
+            }
         }
         // seeded batching: split the byte stream at random points, tiny pauses now and then
         let mut off = 0;
@@ -1636,7 +1674,13 @@ fn run_c17(args: &Args) -> Report {
             pkgs.push(TPkg { key: "pathdep".into(), name: "pathdep".into(), dir: pathdep_dir.clone(), local: true, deps, path_deps: if second_level { vec!["pathdep2".into()] } else { vec![] }, modules: vec![] });
             if second_level {
                 rep.see("layouts", if nested_path { "path-dependency-of-a-path-dependency:inside-the-root" } else { "path-dependency-of-a-path-dependency:beside-the-root" });
-                pkgs.push(TPkg { key: "pathdep2".into(), name: "pathdep2".into(), dir: pathdep_dir.parent().unwrap().join("pathdep2"), local: true, deps: vec![], path_deps: vec![], modules: vec![] });
+                // ... which, one time in three, depends back on the first (a cycle of path dependencies is a mistake in
+                // the project, not a reason for the server to stop)
+                let cyclic = cr.chance(1, 3);
+                if cyclic {
+                    rep.see("layouts", "path-dependencies-in-a-cycle");
+                }
+                pkgs.push(TPkg { key: "pathdep2".into(), name: "pathdep2".into(), dir: pathdep_dir.parent().unwrap().join("pathdep2"), local: true, deps: vec![], path_deps: if cyclic { vec!["pathdep".into()] } else { vec![] }, modules: vec![] });
             }
             if private_copy {
                 rep.see("layouts", "path-dependency-with-private-copy-of-a-registry-package");
